@@ -130,8 +130,17 @@ def gen_C18(g, tier):
     return cs
 
 
+def replay_check(vals, line_out):
+    # replayed oracle lines: every C18 oracle prints flags; which convention applies is decided by the arity
+    t = line_out.split()
+    if not t or t[0] != 'ok': return 'error result ' + line_out[:100]
+    if len(t) == 2: return zero_flag(vals, line_out)
+    if len(t) == 3: return stream_ok(vals, line_out)
+    return flags_all_one(vals, line_out)
+
+
 C18 = dict(
-    id='C18', module='EpsicProofs.Props.C18', gen=gen_C18,
+    id='C18', module='EpsicProofs.Props.C18', gen=gen_C18, replay_check=replay_check,
     rule='BoxMuller on the real libc drand48 for random seeds (32-bit, 64-bit, negative), compared deviate by deviate with the model '
          '(48-bit LCG + polar transform at single/double precision over the shared libm); scripted uniform streams with generic, '
          'lattice, near-centre and acceptance-boundary pairs, rejection runs of length 1..300, 1..400 calls on one generator and '
